@@ -28,5 +28,13 @@ def generate : P String := do
   pure (toString rows.length ++ " " ++ String.intercalate " " (rows.map fmtVec) ++ " | " ++
     toString rest.normals.length ++ " " ++ toString rest.uniforms.length)
 
+/-- `norm <leaf dexpr, flag = 1> <k> <op>*k` (0 normalize, 1 mixtureInit, 2 evaluate) → the constant after that history -/
+def norm : P String := do
+  let e ← pDExpr; let k ← pNat
+  let ops ← pRepeat k pNat
+  pEnd
+  let ops' := ops.map (fun o => if o = 0 then Dist.NormOp.normalize else if o = 1 then Dist.NormOp.mixtureInit else Dist.NormOp.evaluate)
+  pure (fmtHexFloat (Dist.normRun (DExpr.normConst e) 0.0 ops'))
+
 end C05
 end HmcVerif
